@@ -1,4 +1,5 @@
 import NeverModel.Lemmas.ExcTab
+import NeverModel.Lemmas.Frame
 /-!
 # C03 — run-time faults become exceptions delivered to the right catch clause
 
@@ -45,6 +46,65 @@ the VM looks up `ip - 1`, so this needs a fault at `ip = 0`, which cannot happen
 theorem exctab_sentinel_not_found (tab : Array ExcEntry) (count : Nat) (hwf : ExcWF tab count = true) :
     excSearch tab count 4294967295 = some none :=
   excSearch_sentinel_null tab count hwf
+
+/-! ## Part 2: unwinding on the VM model (`NeverModel/Model/Vm.lean`, tied by lockstep traces)
+
+A fault sets `running = EXCEPTION`; `step` then continues at `handler(ip - 1)` (Part 1).
+Every handler entry the emitter produces is `CLEAR_STACK n` (a catch clause), `RETHROW` (no clause
+matched in this function) or `UNHANDLED_EXCEPTION` (entry stub).  The theorems below are the two
+frame facts the delivery argument needs, for every machine state:
+* `CLEAR_STACK n` puts the machine back into the function's own frame with exactly its `n`
+  parameters on the stack, discarding whatever had been pushed or half-built above;
+* `RETHROW` pops exactly one frame — complete or only MARKed — restoring the registers that MARK
+  saved and continuing (as an exception) at that MARK's return address, i.e. in the frame's
+  creator; `pp` is preserved by MARK and set to the callee's frame by CALL, so inside an
+  activation `pp` always designates that activation's frame, at any depth of partial frames. -/
+
+open Never.Vm in
+/-- a catch clause starts in the function's own frame: fp = pp, sp = pp + nparams; locals and any
+partially built call frames above are gone, the parameters below are untouched -/
+theorem clear_stack_resets_frame (vm : Vm) (n : Nat) :
+    (clearStackP vm n).fp = vm.pp ∧ (clearStackP vm n).sp = vm.pp + n ∧ (clearStackP vm n).pp = vm.pp ∧
+    (clearStackP vm n).running = 1 ∧ (clearStackP vm n).stack = vm.stack ∧ (clearStackP vm n).gp = vm.gp ∧
+    (clearStackP vm n).gc = vm.gc := by
+  simp [clearStackP]
+
+open Never.Vm in
+/-- MARK saves pp and does not change it; CALL makes pp the new frame -/
+theorem pp_discipline (vm : Vm) (retAddr env fip : Nat) (hs : StackOk vm) (h0 : -1 ≤ vm.sp)
+    (h1 : vm.sp + 5 < vm.stackSize) (hf : fip ≠ 0) :
+    ∃ vm1, markP vm retAddr = .ok vm1 ∧ vm1.pp = vm.pp ∧ slot vm1 (vm.sp + 1) = .stk vm.pp ∧
+      (callP vm1 env fip).pp = vm1.fp := by
+  obtain ⟨vm1, e, p⟩ := markP_spec vm retAddr hs h0 h1
+  have hfz : (fip == 0) = false := by simpa using hf
+  exact ⟨vm1, e, p.pp, p.w1, by simp [callP, hfz]⟩
+
+open Never.Vm in
+/-- RETHROW (= RET, then EXCEPTION) pops exactly the frame `fp` designates and restores what its
+MARK saved: the fault is re-raised in the creator of that frame, at the MARK's return address -/
+theorem rethrow_pops_one_frame (vm0 vm1 vm2 : Vm) (retAddr : Nat)
+    (hs0 : StackOk vm0) (h0 : -1 ≤ vm0.sp) (h1 : vm0.sp + 5 < vm0.stackSize)
+    (hm : markP vm0 retAddr = .ok vm1)
+    (hs2 : StackOk vm2) (hsz : vm2.stackSize = vm0.stackSize) (hfp : vm2.fp = vm0.sp + 5)
+    (hframe : ∀ k : Int, 1 ≤ k → k ≤ 5 → slot vm2 (vm0.sp + k) = slot vm1 (vm0.sp + k))
+    (hsp0 : 0 ≤ vm2.sp) (hsp : vm2.sp < vm2.stackSize) :
+    ∃ vm3, retP vm2 = .ok vm3 ∧ vm3.fp = vm0.fp ∧ vm3.pp = vm0.pp ∧ vm3.gp = vm0.gp ∧ vm3.ip = retAddr ∧
+      vm3.sp = vm0.sp + 1 := by
+  obtain ⟨vm1', hm', mp⟩ := markP_spec vm0 retAddr hs0 h0 h1
+  rw [hm] at hm'; cases hm'
+  obtain ⟨vm3, hr, rp⟩ := retP_spec vm2 hs2 (by omega) (by rw [hfp, hsz]; exact h1) hsp0 hsp
+  refine ⟨vm3, hr, ?_, ?_, ?_, ?_, ?_⟩
+  · rw [rp.fp, hfp]
+    have : vm0.sp + 5 - 1 = vm0.sp + 4 := by omega
+    rw [this, hframe 4 (by omega) (by omega), mp.w4]; rfl
+  · rw [rp.pp, hfp]
+    have : vm0.sp + 5 - 4 = vm0.sp + 1 := by omega
+    rw [this, hframe 1 (by omega) (by omega), mp.w1]; rfl
+  · rw [rp.gp, hfp]
+    have : vm0.sp + 5 - 2 = vm0.sp + 3 := by omega
+    rw [this, hframe 3 (by omega) (by omega), mp.w3]; rfl
+  · rw [rp.ip, hfp, hframe 5 (by omega) (by omega), mp.w5]; rfl
+  · rw [rp.sp, hfp]; omega
 
 def exTab : Array ExcEntry := #[⟨0, 100⟩, ⟨10, 200⟩, ⟨25, 300⟩, ⟨4294967295, 4294967295⟩]
 example : ExcWF exTab 3 = true ∧ (12 : Nat) < 4294967295 := by decide
